@@ -29,7 +29,7 @@ import (
 // from a multiplier shows up as a shape and a bit.
 func C07adder(p *load.Program, run *report.Run) {
 	const rule = "builder-words"
-	run.Rule(rule, "NewAdder, NewSubtractor, the eight ordered comparators, NewEqComparator, NewNeqComparator (operand widths 1..3, result widths up to max+2, one bit for comparisons, both targets) and the multipliers NewArrayMultiplier, NewWallaceMultiplier, NewKaratsubaMultiplier with threshold 3, NewMultiplier (operand widths 1..4, 1..5 for Karatsuba, result widths up to nx+ny), and the unsigned dividers NewUDividerLong/Restoring/Array/NewUDivider on the Yao target (operands of 1..4 bits, every non-zero divisor), NewUDivider on the GMW target (the Goldschmidt divider with its reciprocal ROM, logarithmic shifters, Kogge-Stone adders and correction step; operands of 1..8 bits, thorough 1..10, every non-zero divisor), interpreted gate by gate from source: each result wire is driven exactly once, no gate reads a result wire (Wire.Assign does not schedule the consumers of a wire flagged as output, which result wires are in streaming mode), and its truth table over the operand bits is that of the word-level operation (signed comparisons on operands of one width)")
+	run.Rule(rule, "NewAdder, NewSubtractor, the eight ordered comparators, NewEqComparator, NewNeqComparator (operand widths 1..3 for the adder and subtractor with result widths up to max+2; 1..6, thorough 1..7, for the comparisons with one result bit; both targets) and the multipliers NewArrayMultiplier, NewWallaceMultiplier, NewKaratsubaMultiplier with threshold 3, NewMultiplier (operand widths 1..4, 1..5 for Karatsuba, result widths up to nx+ny), and the unsigned dividers NewUDividerLong/Restoring/Array/NewUDivider on the Yao target (operands of 1..4 bits, every non-zero divisor), NewUDivider on the GMW target (the Goldschmidt divider with its reciprocal ROM, logarithmic shifters, Kogge-Stone adders and correction step; operands of 1..8 bits, thorough 1..10, every non-zero divisor), interpreted gate by gate from source: each result wire is driven exactly once, no gate reads a result wire (Wire.Assign does not schedule the consumers of a wire flagged as output, which result wires are in streaming mode), and its truth table over the operand bits is that of the word-level operation (signed comparisons on operands of one width)")
 	pkg := p.ByPath[load.Module+"/compiler/circuits"]
 	if pkg == nil {
 		run.Undecided(rule, "compiler/circuits", "", "package not loaded")
@@ -138,6 +138,11 @@ func C07adder(p *load.Program, run *report.Run) {
 		maxW := sp.maxW
 		if maxW == 0 {
 			maxW = 3
+		}
+		if sp.cmp {
+			// one result bit: operands of up to 6 (thorough: 7) bits are cheap, and widths that are neither
+			// 2^k nor 3*2^k exercise the odd levels of a reduction tree
+			maxW = bound(6, 7)
 		}
 		for _, target := range []int64{-1, gmw} {
 			tname := "yao"
